@@ -47,7 +47,7 @@ PROPS = {
                 dict(module="MC_ZUCJump", cfg="MC_ZUCJump", tier="thorough", workers=8, timeout=1800, about="same, 6 registers (official keys, all-ones, all-(2^31-1) cells) x 53 step counts up to 4099"),
                 dict(module="MC_ZUCSplit", about="request layer refines the word-at-a-time stream for every composition (toy totals), zero-length requests included")],
         stages=[dict(suite="zuc", nda="compare", trace="TraceZUC", plan=dict(module="PlanZUC", cfg_quick="PlanZUC_q", cfg_thorough="PlanZUC_t"),
-                     required_classes={"both": ["zuc.req/first", "zuc.req/continued", "zuc.req/zero-length", "zuc.new/new.add31-boundary", "zuc.skip/skip"]})],
+                     required_classes={"both": ["zuc.req/first", "zuc.req/continued", "zuc.req/zero-length", "zuc.new/new.add31-boundary", "zuc.skip/skip", "zuc.req/first.r-zero", "zuc.req/continued.r-zero"]})],
         assumptions=["ZUC.tla transcribes GM/T 0001 / ZUC v1.6 (three official vectors and the structural S-box definitions as ASSUMEs)"],
     ),
     "C18": dict(
@@ -68,7 +68,7 @@ PROPS = {
                 dict(module="MC_SM2Sig", cfg="MC_SM2Sig_q_none", tier="quick", about="toy curve F_11 (n = 7): every d, k, digest: Sign in range and verifies, code-shaped signer = standard; every (r', s') of the byte range: VerifyImpl <=> Valid"),
                 dict(module="MC_SM2Sig", cfg="MC_SM2Sig_none", tier="thorough", timeout=1500, about="same on the F_23 curve (n = 29), byte range 0..31: 268 801 states")],
         stages=[dict(suite="sm2sig", nda="validate", trace="TraceSM2", plan=dict(module="PlanSM2Sig", cfg_quick="PlanSM2Sig_q", cfg_thorough="PlanSM2Sig_t"),
-                     required_classes={"both": ["sm2.sign/fixed-nonce", "sm2.sign/free-nonce", "sm2.verify/untouched", "sm2.sign_digest/retry.r=0", "sm2.sign_digest/retry.r+k=n", "sm2.sign_digest/retry.s=0", "sm2.verify_digest/digest.sparse-t", "sm2.verify_digest/digest.edge-valid"]})],
+                     required_classes={"both": ["sm2.verify_digest/digest.big-e", "sm2.verify_digest/digest.gen-key", "sm2.sign/fixed-nonce", "sm2.sign/free-nonce", "sm2.verify/untouched", "sm2.sign_digest/retry.r=0", "sm2.sign_digest/retry.r+k=n", "sm2.sign_digest/retry.s=0", "sm2.verify_digest/digest.sparse-t", "sm2.verify_digest/digest.edge-valid"]})],
         assumptions=["SM2.tla transcribes GB/T 32918.2 (anchored by the GM/T 0003.5 Annex A signature as ASSUME)", "BigNat Java override (cross-checked by MC_BigNat)"],
     ),
     "C04": dict(
@@ -85,7 +85,7 @@ PROPS = {
                 dict(module="MC_SM2Sig", cfg="MC_SM2Sig_q_zero", expect="violation", about="negative: verification without the r,s != 0 check must be refuted"),
                 dict(module="MC_SM2Sig", cfg="MC_SM2Sig_q_inf", expect="violation", about="negative: the pinned commit's handling of [s]G + [t]P = O (x1 read as 0) must be refuted")],
         stages=[dict(suite="sm2ver", nda="validate", trace="TraceSM2", plan=dict(module="PlanSM2Sig", cfg_quick="PlanSM2Sig_q", cfg_thorough="PlanSM2Sig_t"),
-                     required_classes={"both": ["sm2.verify/untouched", "sm2.verify/tampered64", "sm2.verify/len<64", "sm2.verify/len>64",
+                     required_classes={"both": ["sm2.verify_digest/digest.neg-gen-key", "sm2.verify_digest/digest.gen-key", "sm2.verify_digest/digest.big-e", "sm2.verify/untouched", "sm2.verify/tampered64", "sm2.verify/len<64", "sm2.verify/len>64",
                                                 "sm2.verify_digest/digest.small-s", "sm2.verify_digest/digest.s+n", "sm2.verify_digest/digest.r+n", "sm2.verify_digest/digest.t=0", "sm2.verify_digest/digest.sum-is-infinity", "sm2.verify_digest/digest.near-miss",
                                                 "sm2.verify_digest/digest.s=0", "sm2.verify_digest/digest.r=0", "sm2.verify_digest/digest.s=n", "sm2.verify_digest/digest.r=n", "sm2.verify_digest/digest.sparse-t"]})],
         assumptions=["SM2.tla transcribes GB/T 32918.2", "BigNat Java override (cross-checked by MC_BigNat)"],
@@ -102,7 +102,7 @@ PROPS = {
                 dict(module="MC_SM2Enc", cfg="MC_SM2Enc_q_none", tier="quick", about="toy curve F_11, symbols 0..11: every key, nonce, message, order, encoding round-trips; code-shaped decryptor = declarative decryptor on EVERY symbol string of ciphertext length"),
                 dict(module="MC_SM2Enc", cfg="MC_SM2Enc_none", tier="thorough", timeout=900, about="same with symbols 0..15 (5.5 M states)")],
         stages=[dict(suite="sm2enc", nda="validate", trace="TraceSM2", plan=dict(module="PlanSM2Enc", cfg_quick="PlanSM2Enc_q", cfg_thorough="PlanSM2Enc_t"),
-                     required_classes={"both": ["sm2.decrypt/valid-window-y2", "sm2.decrypt/comp-valid-window-y2", "sm2.decrypt/valid-window-x2", "sm2.decrypt/valid-small-x", "sm2.encrypt/c1c3c2.uncomp.klen%32=0", "sm2.encrypt/c1c2c3.comp.short", "sm2.decrypt/own-ciphertext", "sm2.decrypt/spec-made", "sm2.decrypt/weak-zero", "sm2.decrypt/all-zero-t", "sm2.kdf/klen%32=0", "codec.asn1_dec/asn1.dec.interop", "codec.asn1_dec/asn1.dec.interop-short-coord"]})],
+                     required_classes={"both": ["sm2.encrypt/c1c2c3.uncomp.short.retry", "sm2.encrypt/c1c3c2.comp.short.retry", "sm2.decrypt/valid-window-y2", "sm2.decrypt/comp-valid-window-y2", "sm2.decrypt/valid-window-x2", "sm2.decrypt/valid-small-x", "sm2.encrypt/c1c3c2.uncomp.klen%32=0", "sm2.encrypt/c1c2c3.comp.short", "sm2.decrypt/own-ciphertext", "sm2.decrypt/spec-made", "sm2.decrypt/weak-zero", "sm2.decrypt/all-zero-t", "sm2.kdf/klen%32=0", "codec.asn1_dec/asn1.dec.interop", "codec.asn1_dec/asn1.dec.interop-short-coord"]})],
         assumptions=["SM2.tla transcribes GB/T 32918.4 (anchored by the GM/T 0003.5 Annex ciphertext as ASSUME)"],
     ),
     "C06": dict(
@@ -131,7 +131,7 @@ PROPS = {
                 dict(module="MC_SM2Kex", cfg="MC_SM2Kex_neg", expect="violation", about="negative: a validity test that accepts the point at infinity must be refuted")],
         stages=[dict(suite="sm2kex", nda="validate", trace="TraceSM2", plan=dict(module="PlanKex"),
                      required_classes={"both": ["kx.step2/step2.none", "kx.step3/step3.none", "kx.step4/step4.none", "kx.step2/step2.offcurve", "kx.step2/step2.infinity",
-                                                "kx.step3/step3.bitflip", "kx.step4/step4.other", "kx.step2/step2.rerand", "kx.step3/step3.offcurve-forged", "kx.step2/step2.vzero", "kx.step2/step2.tzero", "kx.step2/step2.rerun", "kx.step3/step3.rerun", "kx.step4/step4.rerun"]})],
+                                                "kx.step3/step3.bitflip", "kx.step4/step4.other", "kx.step2/step2.rerand", "kx.step3/step3.offcurve-forged", "kx.step2/step2.vzero", "kx.step2/step2.tzero", "kx.step2/step2.rerun", "kx.step2/step2.kzero", "kx.step3/step3.rerun", "kx.step4/step4.rerun"]})],
         assumptions=["SM2.tla transcribes GB/T 32918.3 with w = 127 and one-byte tags (GM/T 0003.5 Annex values as ASSUMEs)"],
     ),
     "C14": dict(
